@@ -1,6 +1,7 @@
 package octosql
 
 import (
+	"fmt"
 	"math"
 
 	"github.com/cube2222/octosql/zzverif"
@@ -111,4 +112,24 @@ func VerifC09HashStep() {
 		// HashManyValues over slices that are element-wise equal
 		zzverif.Assert(HashManyValues([]Value{a, a}) == HashManyValues([]Value{b, a}), "HashManyValues-consistent")
 	}
+}
+
+// VerifC09ListCompare: Compare on two lists of 0..E Ints (lengths forked, elements symbolic)
+// returns exactly -1, 0 or 1 — the order-based users (ORDER BY, min/max, btree keys) test the
+// result with == -1 — and is antisymmetric; equal-length-prefix cases included.
+func VerifC09ListCompare() {
+	e := zzverif.Param("E")
+	mk := func(name string) Value {
+		n := zzverif.Choice(name+".len", e+1)
+		els := make([]Value, n)
+		for i := range els {
+			els[i] = NewInt(zzverif.Int64(fmt.Sprintf("%s.%d", name, i)))
+		}
+		return NewList(els)
+	}
+	a, b := mk("a"), mk("b")
+	ab, ba := a.Compare(b), b.Compare(a)
+	zzverif.Reach("compared")
+	zzverif.Assert(ab == -1 || ab == 0 || ab == 1, "compare-result-is-minus-one-zero-or-one")
+	zzverif.Assert(ab == -ba, "antisymmetric")
 }
